@@ -279,7 +279,7 @@ Qed.
 Theorem run_invariants c K ops s :
   cfg_ok c -> ops_ok ops -> WF s -> all_inv K s -> WF (run c s ops) /\ all_inv K (run c s ops).
 Proof.
-  intros Hc Ho Hw Hi. destruct (run_prims c ops s Hc Ho Hw) as [W P].
+  intros Hc Ho Hw Hi. destruct (run_prims c ops s Hc Ho Hw) as (W & P & _).
   split; [exact W | exact (all_prims c K s _ Hw Hi P)].
 Qed.
 
@@ -342,7 +342,23 @@ Theorem filled_reachable c initial ops i o :
   o_id o = i /\ 0 <= filled o /\ filled o <= o_amount o.
 Proof.
   intros Hc Ho Hn.
-  destruct (run_prims c ops (init_st initial) Hc Ho (WF_init initial)) as [(W & _) _].
+  destruct (run_prims c ops (init_st initial) Hc Ho (WF_init initial)) as ((W & _) & _ & _).
   destruct (W _ _ Hn) as [Eid [H0 H1]]. split; [exact Eid|].
   unfold filled. rewrite (Qabsq_dir _ _ H0). split; assumption.
+Qed.
+
+(* C05, whole history: an order that is closed stays exactly as it is, whatever operations follow *)
+Theorem closed_orders_final c ops s i o :
+  cfg_ok c -> ops_ok ops -> WF s ->
+  nth_error (s_orders s) i = Some o -> is_open o = false -> nth_error (s_orders (run c s ops)) i = Some o.
+Proof. intros Hc Ho Hw Hi Hcl. destruct (run_prims c ops s Hc Ho Hw) as (_ & _ & F). apply F; assumption. Qed.
+
+Theorem closed_final_reachable c initial ops1 ops2 i o :
+  cfg_ok c -> ops_ok ops1 -> ops_ok ops2 ->
+  nth_error (s_orders (run c (init_st initial) ops1)) i = Some o -> is_open o = false ->
+  nth_error (s_orders (run c (init_st initial) (ops1 ++ ops2))) i = Some o.
+Proof.
+  intros Hc H1 H2 Hi Hcl. unfold run. rewrite fold_left_app. fold (run c (init_st initial) ops1).
+  apply (closed_orders_final c ops2 (run c (init_st initial) ops1) i o Hc H2); [|exact Hi | exact Hcl].
+  apply (run_prims c ops1 (init_st initial) Hc H1 (WF_init initial)).
 Qed.
